@@ -23,6 +23,8 @@ impl SignatureConverter<'_> {
 
         // a trait method cannot be `const`, the fn stays what it is
         entrait_sig.sig.constness = None;
+        // (the method is the macro's, whatever macro the fn came out of: see the receiver below)
+        entrait_sig.sig.fn_token.span = Span::call_site();
 
         // strip away attributes
         for fn_arg in entrait_sig.sig.inputs.iter_mut() {
@@ -190,11 +192,14 @@ impl SignatureConverter<'_> {
             None => syn::parse_quote!(Self),
         };
 
+        // The receiver is the macro's own token: it has the hygiene of the invocation (a mock macro that is
+        // applied to the generated trait writes `self` with that hygiene, too), not that of the parameter it replaces
+        let _ = span;
         syn::FnArg::Receiver(syn::Receiver {
             attrs: vec![],
             reference,
             mutability: None,
-            self_token: syn::token::SelfValue(span),
+            self_token: syn::token::SelfValue(Span::call_site()),
             colon_token: None,
             ty,
         })
